@@ -1,6 +1,6 @@
 (* C02 — left-recursive rules parse by seed growing (partial: loop-level theorems). *)
-From Coq Require Import List String NArith ZArith Bool Arith.
-From Pegen Require Import Base.StrUtil Base.Values Runtime.Tokenizer Sem.Peg Gen.Gen Runtime.Exec Proofs.ExecInv.
+From Coq Require Import List String NArith ZArith Bool Arith Lia.
+From Pegen Require Import Base.StrUtil Base.Values Runtime.Tokenizer Sem.Peg Gen.Gen Runtime.Exec Proofs.ExecInv Proofs.GrowSpec.
 Import ListNotations.
 Open Scope string_scope.
 
@@ -17,6 +17,80 @@ Theorem C02_growth_loop :
   Inv (snd r) /\ match fst r with Ok v => mark <= pos (snd r) /\ (truthy v = false -> pos (snd r) = mark) | _ => True end.
 Proof. exact grow_post. Qed.
 Print Assumptions C02_growth_loop.
+
+(* What the loop computes: "the longest match obtained by repeatedly re-evaluating the alternatives
+   with the previous result substituted for the recursive call".  For ANY body, key, mark and any
+   sequence of results r 0 (the primed failure), r 1, ..., r n with end positions m 0 < ... < m n:
+   if the body, run at the mark with the k-th result as the cached seed, yields the (k+1)-th
+   (k < n), and with the n-th as seed fails or does not get further, then the loop -- given more
+   than n units of fuel -- returns exactly r n and leaves the cursor at m n. *)
+Theorem C02_growth_loop_computes_the_iteration_limit :
+  forall key mark body (r : nat -> value) (m : nat -> nat) n,
+  (forall k st, k < n -> seeded key r m k st -> pos st = mark ->
+     exists st', body st = (Ok (r (S k)), st') /\ pos st' = m (S k) /\ truthy (r (S k)) = true /\ m k < m (S k)) ->
+  (forall st, seeded key r m n st -> pos st = mark ->
+     exists v st', body st = (Ok v, st') /\ (truthy v = false \/ pos st' <= m n)) ->
+  forall fuel st, n < fuel -> seeded key r m 0 st ->
+  exists st', grow fuel key mark body (r 0) (m 0) st = (Ok (r n), st') /\ pos st' = m n.
+Proof.
+  intros key mark body r m n Hstep Hstop fuel st Hf Hs.
+  exact (grow_is_iteration key mark body r m n Hstep Hstop n 0 fuel st eq_refl Hf Hs).
+Qed.
+Print Assumptions C02_growth_loop_computes_the_iteration_limit.
+
+(* The decorator as a whole, in quiet mode, when the cache has no entry for the rule at this position:
+   it primes the cache with a failure, grows, and returns and records the limit. *)
+Theorem C02_decorator_returns_and_records_the_limit :
+  forall toks name body (r : nat -> value) (m : nat -> nat) n st fuel,
+  r 0 = VNone -> m 0 = pos st ->
+  (forall k st', k < n -> seeded (pos st, name, None) r m k st' -> pos st' = pos st ->
+     exists st'', body st' = (Ok (r (S k)), st'') /\ pos st'' = m (S k) /\ truthy (r (S k)) = true /\ m k < m (S k)) ->
+  (forall st', seeded (pos st, name, None) r m n st' -> pos st' = pos st ->
+     exists v st'', body st' = (Ok v, st'') /\ (truthy v = false \/ pos st'' <= m n)) ->
+  cache_find (pos st, name, None) (cache st) = None -> n < fuel ->
+  exists st', memoize_left_rec toks false fuel name body st = (Ok (r n), st')
+              /\ pos st' = (if truthy (r n) then m n else pos st)
+              /\ cache_find (pos st, name, None) (cache st') = Some (r n, pos st').
+Proof.
+  intros toks name body r m n st fuel H0 Hm Hstep Hstop Hnone Hf.
+  exact (memoize_left_rec_is_iteration toks name body r m n st fuel H0 Hm Hstep Hstop Hnone Hf).
+Qed.
+Print Assumptions C02_decorator_returns_and_records_the_limit.
+
+(* Seed growing terminates: every further iteration ends strictly later and no match ends beyond
+   the input, so with more fuel than positions left the loop never runs out of fuel by itself. *)
+Theorem C02_growth_terminates :
+  forall (L : nat) key mark body,
+  (forall st, fst (body st) <> OutOfFuel) ->
+  (forall st v st', body st = (Ok v, st') -> pos st' <= L) ->
+  forall fuel lastresult lastmark st, L - lastmark < fuel ->
+  fst (grow fuel key mark body lastresult lastmark st) <> OutOfFuel.
+Proof.
+  intros L key mark body H1 H2 fuel lastresult lastmark st Hf.
+  exact (grow_terminates L key mark body H1 H2 fuel fuel lastresult lastmark st Hf (le_n _)).
+Qed.
+Print Assumptions C02_growth_terminates.
+
+(* The hypotheses are satisfiable: a body that extends its seed twice and then stops. *)
+Definition ex_key : ckey := (0, "a", None).
+Fixpoint ex_r (k : nat) : value := match k with O => VNone | S j => VList [ex_r j; VTrue] end.
+Definition ex_body (st : pstate) : R :=
+  match cache_find ex_key (cache st) with
+  | Some (v, e) => if Nat.ltb e 2 then (Ok (VList [v; VTrue]), with_pos st (S e)) else (Ok VNone, st)
+  | None => (Ok VNone, st)
+  end.
+Example C02_iteration_example :
+  exists st', grow 5 ex_key 0 ex_body (ex_r 0) 0 (cache_set ex_key (VNone, 0) init_state) = (Ok (ex_r 2), st') /\ pos st' = 2.
+Proof.
+  apply (C02_growth_loop_computes_the_iteration_limit ex_key 0 ex_body ex_r (fun k => k) 2).
+  - intros k st Hk Hs Hp. unfold seeded in Hs. unfold ex_body. rewrite Hs.
+    assert (E : Nat.ltb k 2 = true) by (apply Nat.ltb_lt; exact Hk). rewrite E.
+    eexists. repeat split; try reflexivity. lia.
+  - intros st Hs Hp. unfold seeded in Hs. unfold ex_body. rewrite Hs. cbn. eexists _, _. split; [reflexivity|left; reflexivity].
+  - lia.
+  - unfold seeded. reflexivity.
+Qed.
+Print Assumptions C02_iteration_example.
 
 (* Non-vacuity: A: A 'x' | 'b' on  b x x  grows twice and returns the left-nested tree. *)
 Definition KD : kinds := {| kNAME := 1; kNUMBER := 2; kSTRING := 3; kOP := 55; kNEWLINE := 4; kINDENT := 5; kDEDENT := 6;
